@@ -389,6 +389,16 @@ def main(ck):
             auto_cfgs.append({"autoload": subs, "threads": ths, "gomaxprocs": g, "repeat": 12, "keepall": True,
                               "want": dict(("App\\S%d\\Item" % k, 1000 + k) for k in range(2 * n))})
     if not ck.replay:
+        # an AGED process: 1.05 million goroutines have come and gone before the run (every connection and every spawn of a
+        # long-running server is a goroutine), so the goroutines of the run have 7-digit ids; the re-entrant load lock
+        # tells its owner from the others by goroutine id (seeded change C10-14: only the first 6 digits were read)
+        for (n, g) in ([(8, 8), (16, 16), (4, 2)] if ck.tier == "quick" else [(n, g) for n in (2, 4, 8, 16) for g in (2, 8, 16)]):
+            ths = []
+            for _ in range(n):
+                t = [{"op": "goc", "name": "App\\P"}, {"op": "goi", "name": "App\\Q"}, {"op": "pkg", "name": "App\\S"}]
+                rng.shuffle(t)
+                ths.append(t)
+            auto_cfgs.append({"autoload": AUTO, "age": 1050000, "threads": ths, "gomaxprocs": g, "repeat": 40, "keepall": True, "results_only": True})
         # spl autoload callbacks (process-wide list in parser/class_path_manager.go): 4 callbacks, the first three decline
         # every Dyn3_* name, the last one defines it; lookups of fresh Dyn3_* names (each goes through CallAutoLoad) run
         # while other goroutines unregister and re-register the declining callbacks in front of it.  The loader is
@@ -414,8 +424,9 @@ def main(ck):
     for binx, what in ((binary, "results"), (racebin, "race")):
         if not auto_cfgs:
             break
-        aouts, _, _ = run_lines([binx, "stress"], [json.dumps(c) for c in auto_cfgs])
-        for c, o in zip(auto_cfgs, aouts):
+        acur = [c for c in auto_cfgs if what == "results" or not c.get("results_only")]   # ageing under -race costs seconds per child
+        aouts, _, _ = run_lines([binx, "stress"], [json.dumps(c) for c in acur])
+        for c, o in zip(acur, aouts):
             if "worker_death" in o:
                 death_violation(ck, "autoload", c, o["worker_death"])
                 continue
@@ -480,6 +491,20 @@ def main(ck):
                             {"op": "pkg", "name": "App\\S"}, {"op": "setfile", "name": "/nonexistent-c10/s%d.php" % t},
                             {"op": "shutdown", "val": t}])
             tcfgs.append({"autoload": AUTO, "temps": [True] * n, "sharedtemp": True, "threads": ths, "gomaxprocs": g, "repeat": 20, "keepall": True})
+        # inside one request (TempVM): an included file whose TOP-LEVEL code spawns coroutines that autoload a class and
+        # waits for them over a Channel (op incwait), next to other goroutines autoloading on the same / their own
+        # request VM: the include must return (seeded change C10-15: the request's load lock held while the included
+        # file's code runs -> the coroutines block in the load lock, the include waits for them: deadlock)
+        for (n, g, sharedtemp) in [(2, 4, True), (4, 16, True), (3, 4, False)]:
+            ths = []
+            for t in range(n):
+                cls = ["App\\P", "App\\S"][t % 2]
+                ths.append([{"op": "incwait", "name": cls}, {"op": "goi", "name": "App\\Q"}, {"op": "incwait", "name": ["App\\S", "App\\P"][t % 2]}] if t % 2 == 0 else
+                           [{"op": "goi", "name": "App\\Q"}, {"op": "incwait", "name": cls}, {"op": "goc", "name": "App\\P"}])
+            c = {"autoload": AUTO, "std": True, "temps": [True] * n, "threads": ths, "gomaxprocs": g, "repeat": 6, "keepall": True, "plain": True}
+            if sharedtemp:
+                c["sharedtemp"] = True
+            tcfgs.append(c)
     elif json.load(open(ck.replay)).get("mode") == "temps":
         tcfgs = [json.load(open(ck.replay))["case"]]
 
@@ -507,6 +532,11 @@ def main(ck):
                 continue
             for run in ((o.get("alls") or [[]])[0] or [])[:6]:
                 for ti, (ops, rs) in enumerate(zip(c["threads"], run)):
+                    if c.get("plain") and not c.get("sharedtemp"):
+                        if any(r["r"] != 0 for r in rs):
+                            ck.violation("temps:include-spawn-wait:op-failed", {"mode": "temps", "case": c, "impl_out": {"thread": ti, "results": rs},
+                                                                               "clause": "requests on their own TempVMs including a file whose top-level code spawns autoloading coroutines and waits for them: every op succeeds"})
+                        continue
                     if c.get("sharedtemp"):
                         if any(r["r"] != 0 for r in rs):
                             ck.violation("temps:shared-request-vm:op-failed", {"mode": "temps", "case": c, "impl_out": {"thread": ti, "results": rs},
